@@ -65,6 +65,10 @@ CLAIMS = {
    text="Valid signed events (all kind classes, with/without a real NIP-26 delegation) corrupted by 1-3 mutations from a 30-entry typed catalogue (forged/transplanted/upper-case ids, signature and pubkey corruption, content/kind/timestamp/tag changes under the old id, type confusion, extra/missing keys, delegation arity/forgery/transplant/conditions) on the websocket and direct admission paths of both backends with a watcher; plus add_service_event. An independent verifier decides: everything stored or pushed must be authentic and equal the submission, refused events leave no trace, authentic events are accepted.",
    note="Harness canonical serializer cross-checked against aionostr on unmutated events; the three known renderings of control characters all count as 'the hash'.",
    tech="property-based testing: typed mutation catalogue + independent verifier oracle (BIP-340 via coincurve)"),
+ "C05": dict(cat="exploration",
+   text="Generated schedules over up to 4 connections (REQ, replacing REQ, CLOSE, valid/invalid/duplicate/ephemeral EVENT, disconnect) interleaved with harness-owned scheduling (recv latency, parked/released validator jobs, k applied LMDB writes, yields, settles); every frame is stamped with the operation index at which it appeared; per (connection, sub id, event) a MUST lower bound (instance certainly open over the whole accept interval and must-matching) and an AT-MOST upper bound derived from open/closed/overlap windows; refused events reach nobody; live==stored agreement for instances open at the end.",
+   note="LMDB fully deterministic (no threads); SQL keeps aiosqlite threads so only message-level interleavings are owned; boundary (since/until) and ephemeral cases are MAY.",
+   tech="property-based testing: schedule generation with a window-based MUST/AT-MOST oracle (happens-before over observed frames)"),
 }
 NA_REASON = "check under construction in this session; will be claimed when it is quiet and sensitive"
 
